@@ -318,6 +318,12 @@ func sfCfgs() []sfCfg {
 		{name: "forget-panic-3", forget: true, plan: []string{"panic", "ok", "ok"}, scripts: [][]int{{1}, {1}, {1}}},
 		{name: "reuse-2keys", plan: []string{"ok", "ok", "ok"}, scripts: [][]int{{1, 2}, {1, 2}}},
 		{name: "panic-reuse", plan: []string{"panic", "ok", "ok"}, scripts: [][]int{{1, 2}, {1, 2}}},
+		// a record that went back to the pool after a FAILED call is re-used by a call that ends another way: the
+		// second call's outcome must not be mixed with what the record still holds from the first
+		{name: "err-then-exit", plan: []string{"err", "exit", "ok"}, scripts: [][]int{{1, 1}, {1}}},
+		{name: "panic-then-exit", plan: []string{"panic", "exit", "ok"}, scripts: [][]int{{1, 1}, {1}}},
+		{name: "err-then-panic", plan: []string{"err", "panic", "ok"}, scripts: [][]int{{1, 1}, {1}}},
+		{name: "exit-then-err", plan: []string{"exit", "err", "ok"}, scripts: [][]int{{1}, {1, 1}}},
 		{name: "reuse-3t", plan: []string{"ok", "ok", "ok"}, scripts: [][]int{{1, 2}, {1}, {2}}},
 		{name: "panic-reuse-3t", plan: []string{"panic", "ok", "ok"}, scripts: [][]int{{1, 2}, {1}, {2}}},
 	}
@@ -508,6 +514,7 @@ func c13Drivers() []*icCfg {
 		{Name: "F3-panic", O: big, Loading: true, LoadCost: 1, LoadPlan: []string{"panic"}, Scripts: [][]icOp{{L(1)}, {L(1)}, {S(2)}}, Post: epi},
 		{Name: "F4-goexit", O: big, Loading: true, LoadCost: 1, LoadPlan: []string{"exit"}, Scripts: [][]icOp{{L(1)}, {L(1)}, {S(2)}}, Post: epi},
 		{Name: "F5-with-writers", O: big, Loading: true, LoadCost: 1, Scripts: [][]icOp{{L(1)}, {L(1)}, {S(1), D(1)}}, Post: epi},
+		{Name: "F7-err-then-exit", O: big, Loading: true, LoadCost: 1, LoadPlan: []string{"err", "exit"}, Scripts: [][]icOp{{L(1), L(1)}, {L(1)}}, Post: epi},
 		{Name: "F6-two-keys", O: big, Loading: true, LoadCost: 1, Scripts: [][]icOp{{L(1), L(4)}, {L(1)}, {L(4)}}, Post: epi},
 	}
 }
